@@ -317,6 +317,9 @@ class C16First(object):
         label = ch.pick(labels, 'subject')
         entry_name = ch.pick(ENTRIES[:4], 'entry')
         res.event('world', tpl, sorted(spec['params'].items(), key=str), label, entry_name)
+        cold = ch.chance(1, 8, 'process-first-use')
+        if cold:
+            res.counters['runs_starting_from_import_state'] += 1
 
         def viol(clause, symptom, detail):
             res.violations.append(Violation(PROP, clause, tpl, symptom, detail=detail,
@@ -324,6 +327,10 @@ class C16First(object):
 
         def execute(fault_map):
             """Fresh world; returns (world, objects, snap, names, outcome, injector)."""
+            if cold:
+                # first retrieval of the process as well: module-level one-time set-up is inside
+                from sim import sutstate
+                sutstate.restore_import()
             w = worlds.build(spec)
             objects = snapshot.closure(w)
             snap = snapshot.Snapshot(objects)
@@ -546,6 +553,8 @@ class C16Hist(object):
                     return False
             return True
 
+        report_param_level = ch.chance(1, 16, 'check-parameter-level-aliasing')
+        param_level_reported = [False]
         nsteps = 1 + ch.draw(cfg.get('hist_len', 6), 'n-steps')
         for step in range(nsteps):
             opname = ch.pick(['merge', 'embed', 'mask', 'forwards', 'sort_params', 'apply_params',
@@ -676,6 +685,24 @@ class C16Hist(object):
                         detail='step {0} {1}: result shares its {2} with the SortedParameters it was given'.format(
                             step, what, sh)))
                     return res
+            if report_param_level and isinstance(r, inspect.Signature) and not param_level_reported[0]:
+                # parameter level: a result that re-uses an input's parameter object (or a copy
+                # made with replace()) carries that parameter's .sources list, which is the very
+                # list in the input's provenance map (known finding D42; sampled: 1 run in 16)
+                lists = {}
+                for i in idx:
+                    for k2, v in pool[i].sources.items():
+                        if k2 != '+depths':
+                            lists[id(v)] = (i, k2)
+                for pr in r.parameters.values():
+                    hit = lists.get(id(getattr(pr, 'sources', None)))
+                    if hit is not None:
+                        param_level_reported[0] = True
+                        res.violations.append(Violation(
+                            PROP, 'I2p', 'algebra', 'a result parameter carries the provenance list of an input',
+                            detail='step {0} {1}: result.parameters[{2!r}].sources is pool[{3}].sources[{4!r}]'.format(
+                                step, what, pr.name, hit[0], hit[1])))
+                        break
             consumed_earlier = any(i >= n0 for i in idx)
             res.key(opname, tuple(sorted(set(str(pool[i]) for i in idx))), nontrivial=consumed_earlier or len(idx) > 1)
             if isinstance(r, inspect.Signature):
